@@ -155,6 +155,13 @@ def specKeyAt (now : Nat) (s : NMap Entry) (c : Key × KOp) : NMap Entry × R1 :
   let r := specSlot c.2 now (NMap.get s c.1)
   (put s c.1 r.1, r.2)
 
+/-- `evict_expired_all_shards` (the TTL manager's tick): every shard adopts the time and evicts; the
+    return value is the number of keys evicted NOW — an internal metric that legitimately depends on
+    the shard count (on one shard earlier messages have already evicted what N shards still hold) -/
+def evictAll (st : List TShard) (now : Nat) : List TShard × Nat :=
+  (st.map (fun sh => setTime sh now),
+   (st.map (fun sh => sh.data.length - (setTime sh now).data.length)).sum)
+
 def tinit (n : Nat) : List TShard := List.replicate n { data := [], clock := 0 }
 
 /-- a timed run: every step is (virtual time, command) -/
